@@ -185,12 +185,64 @@ theorem C10_code_observers (s : St) (l : Bool) (e : Nat) :
     sem hive_code .Len [] l (conc s) = (conc s, .int (s.len l)) ∧
     semElem hive_code .Next e (conc s) = .word (nextOf s e) ∧
     semElem hive_code .Prev e (conc s) = .word (prevOf s e) ∧
-    semElem hive_code .Value e (conc s) = .word (if e < 3 then 0 else (s.heap e).val) := by
-  refine ⟨front_c (fun _ _ => rfl) s l, back_c (fun _ _ => rfl) s l, len_c (fun _ _ => rfl) s l,
-    next_c (fun _ _ => rfl) s e, prev_c (fun _ _ => rfl) s e, ?_⟩
-  have key : sem hive_code .Value [e] false (conc s) =
-      if (decide (e < 3)) = true then (conc s, Val.word 0) else (conc s, .word (s.heap e).val) := rfl
-  unfold semElem; rw [key]; by_cases h : e < 3 <;> simp [h]
+    semElem hive_code .Value e (conc s) = .word (valueOf s e) := by
+  exact ⟨front_c (fun _ _ => rfl) s l, back_c (fun _ _ => rfl) s l, len_c (fun _ _ => rfl) s l,
+    next_c (fun _ _ => rfl) s e, prev_c (fun _ _ => rfl) s e, value_c s e⟩
+
+/-- **The four traversals of the translated code are the model's walks** (every state, every step bound): `Range`
+and `ForEach` start at `Front()` and advance by `Next()`, the reverse ones start at `Back()` and advance by `Prev()`,
+each hands `Value()` of the element to the callback; only the `ForEach` pair can be aborted by the callback's error;
+`Values()` collects what `Range` delivers. -/
+theorem C10_code_walks (s : St) (l : Bool) (fuel : Nat) :
+    walkAll hive_code hive_Range l (conc s) fuel = walkF s fuel (front s l) ∧
+    walkAll hive_code hive_ForEach l (conc s) fuel = walkF s fuel (front s l) ∧
+    walkAll hive_code hive_RangeReverse l (conc s) fuel = walkB s fuel (back s l) ∧
+    walkAll hive_code hive_ForEachReverse l (conc s) fuel = walkB s fuel (back s l) ∧
+    hive_Range.abortable = false ∧ hive_RangeReverse.abortable = false ∧
+    hive_ForEach.abortable = true ∧ hive_ForEachReverse.abortable = true ∧
+    hive_Values = ["{", "values := make([]T, 0)", "l.Range(func(value T) {", "values = append(values, value)", "})",
+      "return values", "}"] := by
+  refine ⟨?_, ?_, ?_, ?_, rfl, rfl, rfl, rfl, by decide⟩
+  · unfold walkAll; rw [show hive_Range.start = .Front from rfl, front_c (fun _ _ => rfl)]; exact walk_fwd _ rfl s _ _
+  · unfold walkAll; rw [show hive_ForEach.start = .Front from rfl, front_c (fun _ _ => rfl)]; exact walk_fwd _ rfl s _ _
+  · unfold walkAll; rw [show hive_RangeReverse.start = .Back from rfl, back_c (fun _ _ => rfl)]; exact walk_bwd _ rfl s _ _
+  · unfold walkAll; rw [show hive_ForEachReverse.start = .Back from rfl, back_c (fun _ _ => rfl)]
+    exact walk_bwd _ rfl s _ _
+
+/-- **What a traversal delivers, in a well-formed state**: all four deliver the values of the abstract sequence
+(forwards / backwards) within the harness's step bound — never `cycle` — and a `ForEach` whose callback fails at its
+`k`-th call delivers exactly the first `k` values and reports the abort (`k` larger than the list: everything, no
+abort). -/
+theorem C10_traversals (s : St) (w : WF s) (l : Bool) (k : Nat) :
+    walkF s (bound s + 1) (front s l) = (s.seq l).map (fun e => (s.heap e).val) ∧
+    walkB s (bound s + 1) (back s l) = ((s.seq l).map (fun e => (s.heap e).val)).reverse ∧
+    (s.seq l).length ≤ bound s ∧
+    (1 ≤ k → k ≤ (s.seq l).length →
+      forEachAbort (walkF s (bound s + 1) (front s l)) k = (((s.seq l).map (fun e => (s.heap e).val)).take k, true)) ∧
+    ((s.seq l).length < k →
+      forEachAbort (walkF s (bound s + 1) (front s l)) k = ((s.seq l).map (fun e => (s.heap e).val), false)) := by
+  have hlen : (s.seq l).length ≤ bound s := by
+    have := seq_length_le w l
+    unfold bound; omega
+  have hF : walkF s (bound s + 1) (front s l) = (s.seq l).map (fun e => (s.heap e).val) := by
+    rw [front_eq w l]; exact walkF_seq (o := l) w (s.seq l) [] _ (by simp) (by omega)
+  have hB : walkB s (bound s + 1) (back s l) = ((s.seq l).map (fun e => (s.heap e).val)).reverse := by
+    have := walkB_seq (o := l) w (s.seq l).reverse [] (bound s + 1) (by simp) (by simp; omega)
+    rw [List.head?_reverse, ← back_eq w l] at this
+    rw [this, List.map_reverse]
+  refine ⟨hF, hB, hlen, ?_, ?_⟩
+  · intro h1 h2
+    rw [hF]; unfold forEachAbort
+    rw [if_pos ⟨by omega, by simpa using h2⟩]
+  · intro h
+    rw [hF]; unfold forEachAbort
+    rw [if_neg (by simp; omega)]
+
+/-- The hypotheses of `C10_traversals` are satisfiable: the state reached by `demo` is well-formed, its list B has 7
+elements, a callback failing at its 3rd call gets the first three values. -/
+example : forEachAbort (walkF (run init demo).1 (bound (run init demo).1 + 1) (front (run init demo).1 true)) 3
+    = ((((run init demo).1.seq true).map fun e => ((run init demo).1.heap e).val).take 3, true) :=
+  (C10_traversals (run init demo).1 (C10_refines_run demo (by decide)).2.2 true 3).2.2.2.1 (by decide) (by decide)
 
 /-- A history executed by a translated library. -/
 def runCode (lib : Lib) (c : CSt) : List Op → CSt × List Val
@@ -232,7 +284,8 @@ example : (runCode hiveLib (conc init) demo).2 = (srun sinit demo).2.map outVal 
   (C10_code_refines_run demo (by decide)).1
 
 /-- The thread-safe wrapper delegates every method to the inner method of the same name with its own parameters in
-their order; the constructors initialise (`newList` calls `Init`, which is the model's initial state). -/
+their order; the constructors initialise (`newList` calls `Init`, which is the model's initial state) and `NewList`
+hands out the lock-free list only for `lockFree[0] == true`. -/
 theorem C10_code_wrappers :
     hive_wrappers = ["Init -> Init()", "Front -> Front()", "Back -> Back()", "PushFront -> PushFront(p0)",
       "PushBack -> PushBack(p0)", "Remove -> Remove(p0)", "InsertBefore -> InsertBefore(p0,p1)",
@@ -241,7 +294,9 @@ theorem C10_code_wrappers :
       "PushFrontList -> PushFrontList(p0)", "ForEach -> ForEach(p0)", "ForEachReverse -> ForEachReverse(p0)",
       "Range -> Range(p0)", "RangeReverse -> RangeReverse(p0)", "Values -> Values()", "Len -> Len()"] ∧
     hive_constructors = ["func newList", "{", "l := new(list[T])", "l.Init()", "return l", "}",
-      "func newThreadSafeList", "{", "return &threadSafeList[T]{", "list: newList[T](),", "}", "}"] := by
+      "func newThreadSafeList", "{", "return &threadSafeList[T]{", "list: newList[T](),", "}", "}",
+      "func NewList", "{", "if len(lockFree) > 0 && lockFree[0] {", "return newList[T]()", "}",
+      "return newThreadSafeList[T]()", "}"] := by
   decide
 
 end code
